@@ -27,23 +27,21 @@ META = {
                   'on the implementation through guarded yield points (hook H2) under a cooperative deterministic scheduler'),
     'design_ref': 'DESIGN.md section 4 C20',
     'theorems': ['C20_memo_linearizable', 'C20_memo_sequential', 'C20_protocols', 'C20_load_plain', 'C20_dump_plain',
-                 'C20_env_plain', 'C20_hook_scan_repaired', 'C20_partial', 'C20_refuted_hook_scan', 'C20_refuted_path_fill',
-                 'C20_refuted_defaults_fill', 'C20_refuted_v1_catchall_pop', 'C20_refuted_env_reload',
-                 'C20_repairs_remove_witnesses', 'C20_hook_table'],
+                 'C20_env_plain', 'C20_v1_catchall_plain', 'C20_partial', 'C20_refuted_path_fill',
+                 'C20_f31_repair_removes_witnesses', 'C20_former_witnesses_sequential', 'C20_hook_table'],
     'tables': ['ConcHooks'],
     'level_text': ('PARTIAL. Proved in Coq for ALL schedules (any number of threads, unbounded length, one scheduling point per '
-                   'shared-table access): a program whose every write stores an admissible value for its key and whose result '
-                   'does not depend on whether a read hits or misses returns its sequential result, and no table ever holds a '
-                   'non-admissible value; instantiated for the memo protocols of the library (FIELDS, CLASS_TO_LOADER, '
-                   'CLASS_TO_DUMPER, FIELD_NAME_TO_LOAD_PARSER, CLASS_TO_LOAD_FUNC, CLASS_TO_DUMP_FUNC, the JSON key cache incl. '
-                   'negative entries, setattr of from_dict/to_dict, IS_DUMP_CONFIG_SETUP, environ / Env.var_names / '
-                   'Env.cleaned_to_env) and for the complete first-load / first-dump / EnvWizard-instantiate programs of classes '
-                   'in the safe region (no JSON-path fields; no skip_defaults with default fields; values of hook-table types; '
-                   'no _reload). Outside it the faithful model is REFUTED with concrete schedules (hook scan, two-phase path '
-                   'tables, FIELD_TO_DEFAULT registered empty, v1 catch-all pop, Env.reload), each reproduced on the implementation. '
-                   'The repaired hook scan (iterate over tuple(hooks)) is proved memo-shaped for every value type; the other four '
-                   'proposed repairs are only shown to remove the witness schedules in the model and checked on a repaired tree by '
-                   'the bounded exploration.'),
+                   'shared-table access): a program whose every write stores an admissible value for its key (after the entries it '
+                   'implies) and whose result does not depend on whether a read hits or misses returns its sequential result, and no '
+                   'table ever holds a non-admissible value; instantiated for the memo protocols of the library (FIELDS, '
+                   'CLASS_TO_LOADER, CLASS_TO_DUMPER, FIELD_NAME_TO_LOAD_PARSER, CLASS_TO_LOAD_FUNC, CLASS_TO_DUMP_FUNC, the JSON key '
+                   'cache incl. negative entries, setattr of from_dict/to_dict, IS_DUMP_CONFIG_SETUP, FIELD_TO_DEFAULT filled then '
+                   'published, the dump hook cache with the hook scan over a snapshot, environ / Env.var_names / Env.cleaned_to_env / '
+                   'Env.reload, the v1 catch-all marker) and for the complete first-load / first-dump / EnvWizard-instantiate (with '
+                   'and without _reload) / v1-catch-all-load programs of every class WITHOUT JSON-path fields: any defaults with or '
+                   'without skip_defaults, any run-time type of the dumped values. For classes with >= 2 JSON-path fields the '
+                   'faithful model is REFUTED with concrete schedules (two-phase path tables, F31, open), reproduced on the '
+                   'implementation. The model describes the tree with the repairs F30, F32, F33, F34 in place.'),
     'level_note': ('The theorem is about the micro-step model: preemption between two shared-table accesses. Not exhibited: races '
                    'inside one micro-step (between bytecodes of a dict-free statement), GIL release points inside C extensions, '
                    'free-threaded (no-GIL) builds where single dict operations are still atomic but the model rule R4 is not '
@@ -246,37 +244,36 @@ def scenarios(ctx):
     # ---- DEFAULTS + skip_defaults: FIELD_TO_DEFAULT registered empty, then filled  (F32) ---------------
     dfl = ([F()] if r.random() < 0.5 else []) + [F(dflt=True), F(dflt=True)]
     S.append(Scn('defaults skip_defaults dump||dump', 'defaults', dfl,
-                 [[('dump', dump_vals(dfl))], [('dump', dump_vals(dfl))]], skipdef=True, regions=['F32']))
+                 [[('dump', dump_vals(dfl))], [('dump', dump_vals(dfl))]], skipdef=True))
     # ---- HOOK SCAN: value of a new subtype || value of another new subtype  (F30) -----------------------
     subs = {'MyDict': 'dict', 'MyStr': 'str', 'MyInt': 'int', 'MyList': 'list', 'MyObj': 'object'}
     a, b = r.sample(['MyDict', 'MyList', 'MyObj'], 1)[0], r.choice(['MyStr', 'MyInt'])
     hs = [F(any=True)]
     S.append(Scn('hook scan cold dump||dump', 'hookscan', hs, [[('dump', [('sub', a)])], [('dump', [('sub', b)])]],
-                 subtypes={a: subs[a], b: subs[b]}, regions=['F30']))
+                 subtypes={a: subs[a], b: subs[b]}))
     S.append(Scn('hook scan warm dump||dump', 'hookscan', hs,
                  [[('dump', [('int', 1)]), ('dump', [('sub', a)])], [('dump', [('int', 2)]), ('dump', [('sub', b)])]],
-                 subtypes={a: subs[a], b: subs[b]}, regions=['F30']))
+                 subtypes={a: subs[a], b: subs[b]}))
     S.append(Scn('hook scan same subtype dump||dump', 'hookscan', hs, [[('dump', [('sub', b)])], [('dump', [('sub', b)])]],
-                 subtypes={b: subs[b]}, regions=['F30']))
+                 subtypes={b: subs[b]}))
     # ---- ENV ---------------------------------------------------------------------------------------------
     S.append(Scn('env instantiate||instantiate', 'env', [], [[('env', False)], [('env', False)]], kind='env'))
-    S.append(Scn('env instantiate||instantiate(_reload)', 'env', [], [[('env', False)], [('env', True)]], kind='env',
-                 regions=['F34']))
+    S.append(Scn('env instantiate||instantiate(_reload)', 'env', [], [[('env', False)], [('env', True)]], kind='env'))
     if thorough:
-        S.append(Scn('env 3 threads', 'env', [], [[('env', False)], [('env', True)], [('env', False)]], kind='env', regions=['F34']))
+        S.append(Scn('env 3 threads', 'env', [], [[('env', False)], [('env', True)], [('env', False)]], kind='env'))
         S.append(Scn('paths 3 threads', 'paths', paths, [[('load', full_doc(paths))], [('dump', dump_vals(paths))], [('load', full_doc(paths))]], regions=['F31']))
         S.append(Scn('hook scan 3 threads', 'hookscan', hs, [[('dump', [('sub', a)])], [('dump', [('sub', b)])], [('dump', [('sub', 'MyObj')])]],
-                     subtypes={a: subs[a], b: subs[b], 'MyObj': 'object'}, regions=['F30']))
+                     subtypes={a: subs[a], b: subs[b], 'MyObj': 'object'}))
     # ---- v1 engine and nested classes: direct predicate only (no program model) -------------------------
     v1p = [F(), F(dflt=True)]
     S.append(Scn('v1 plain load||load', 'v1', [F(), F()], [[('load', full_doc([F(), F()], r))], [('load', full_doc([F(), F()], r))]],
                  engine='v1', modelled=False))
     S.append(Scn('v1 defaults load||load', 'v1', v1p, [[('load', [('exact', 0)])], [('load', [('exact', 0), ('exact', 1)])]],
-                 engine='v1', modelled=False, regions=['F32']))
+                 engine='v1', modelled=False))
     v1c = [F(), F(dflt=True, catch_all=True)]
     S.append(Scn('v1 catch-all load||load', 'v1', v1c,
                  [[('load', [('exact', 0), ('unknown', 0)])], [('load', [('exact', 0), ('unknown', 1)])]],
-                 engine='v1', modelled=False, regions=['F33', 'F32']))
+                 engine='v1', modelled=False))
     v1pa = [F(path=True), F(path=True)]
     S.append(Scn('v1 paths load||dump', 'v1', v1pa, [[('load', full_doc(v1pa))], [('dump', dump_vals(v1pa))]],
                  engine='v1', modelled=False, regions=['F31']))
@@ -344,18 +341,7 @@ def region_of(sc, run, t, j, o, ref_per):
     """Which listed finding explains the non-sequential outcome `o` of call j of thread t? (None = none)"""
     err = o.get('err')
     trace = run.get('trace') or []
-    by_thread = {}
-    for tid, name in trace:
-        by_thread.setdefault(tid, []).append(name)
     npaths = sum(1 for f in sc.fields if f.get('path'))
-    ndfl = sum(1 for f in sc.fields if f.get('dflt'))
-    call = sc.threads[t][j] if sc.kind != 'env' else ('env',)
-    # F30: RuntimeError out of the dump hook scan while another thread cached a new type
-    if err == 'RuntimeError' and call[0] == 'dump' and any(v[0] == 'sub' for v in call[1]):
-        mine = by_thread.get(t, [])
-        others_store = any(n == 'hook_scan.store' for tid, n in trace if tid != t)
-        if (not trace) or (mine and mine[-1] in ('hook_scan.begin', 'hook_scan.iter') and others_store):
-            return 'F30'
     # F31: two set-ups of the per-class path tables overlap (>= 2 JSON-path fields)
     if npaths >= 2 and err in ('KeyError', 'MissingFields'):
         if err == 'MissingFields' and not set(o.get('missing_fields') or []) <= {NAMES[i] for i, f in enumerate(sc.fields) if f.get('path')}:
@@ -363,36 +349,42 @@ def region_of(sc, run, t, j, o, ref_per):
         starters = {tid for tid, n in trace if n in CFG_BEGIN}
         if (not trace) or len(starters) >= 2:
             return 'F31'
-    # F32: FIELD_TO_DEFAULT[cls] visible before it is filled
-    if ndfl >= 1:
-        windows = False
-        ev = events(run) if trace else []
-        for x in {tid for tid, _ in trace}:
-            idx = [i for i, e in enumerate(ev) if e[0] == x]
-            reg = [i for i in idx if ev[i][1] == 'defaults.registered']
-            if not reg:
-                continue
-            after = [i for i in idx if i > reg[0] and not ev[i][1].startswith('defaults.fill')]
-            end = after[0] if after else len(ev)
-            if any(ev[i][0] != x for i in range(reg[0], end)):
-                windows = True
-        if (not trace) or windows:
-            if sc.engine == 'v1' and err in ('AttributeError', 'ParseError', 'MissingFields', 'TypeError', 'NameError'):
-                return 'F32'
-            if sc.engine == 'v0' and call[0] == 'dump' and sc.skipdef and err is None:
-                return 'F32'
-    # F33: v1 generation pops the catch-all entry from the shared alias table
-    if sc.engine == 'v1' and any(f.get('catch_all') for f in sc.fields) and err in ('TypeError', 'NameError', 'MissingFields'):
-        readers = {tid for tid, n in trace if n == 'v1_load.aliases_read'}
-        if (not trace) or len(readers) >= 2:
-            return 'F33'
-    # F34: Env.var_names cached from an unset `environ` by a concurrent reload()
-    if sc.kind == 'env' and err == 'MissingVars' and any(c[1] for th in sc.threads for c in th):
-        return 'F34'
     return None
 
 
-FINDING_WITNESS_KEYS = ('scenario', 'named')
+def regressions():
+    """The schedules that exposed the four defects repaired since (named schedules, independent of the
+    number of yield points): replayed on every run, a non-sequential outcome is a VIOLATION with this
+    schedule as replay input."""
+    hs = [F(any=True)]
+    dfl = [F(dflt=True), F(dflt=True)]
+    v1c = [F(), F(dflt=True, catch_all=True)]
+    return [
+        ('F30 hook scan: A inside `for t in tuple(hooks)`, B caches a new subtype',
+         Scn('regression F30', 'hookscan', hs, [[('dump', [('sub', 'MyDict')])], [('dump', [('sub', 'MyStr')])]],
+             subtypes={'MyDict': 'dict', 'MyStr': 'str'}),
+         [[0, 'hook_scan.iter', 1], [1, 'end'], [0, 'end']]),
+        ('F30 hook scan, no matching hook: A walks the whole table, B caches a new subtype',
+         Scn('regression F30b', 'hookscan', hs, [[('dump', [('sub', 'MyObj')])], [('dump', [('sub', 'MyStr')])]],
+             subtypes={'MyObj': 'object', 'MyStr': 'str'}),
+         [[0, 'hook_scan.iter', 5], [1, 'end'], [0, 'end']]),
+        ('F32 defaults dict: A between creating and publishing the dict, B generates',
+         Scn('regression F32', 'defaults', dfl, [[('dump', dump_vals(dfl))], [('dump', dump_vals(dfl))]], skipdef=True),
+         [[0, 'defaults.registered', 1], [1, 'end'], [0, 'end']]),
+        ('F32 defaults dict: A half-way through the fill loop, B generates',
+         Scn('regression F32b', 'defaults', dfl, [[('dump', dump_vals(dfl))], [('dump', dump_vals(dfl))]], skipdef=True),
+         [[0, 'defaults.fill', 2], [1, 'end'], [0, 'end']]),
+        ('F33 v1 catch-all: A has read the alias table, B generates and stores, A resumes',
+         Scn('regression F33', 'v1', v1c, [[('load', [('exact', 0), ('unknown', 0)])], [('load', [('exact', 0), ('unknown', 1)])]],
+             engine='v1', modelled=False),
+         [[0, 'v1_load.aliases_read', 1], [1, 'end'], [0, 'end']]),
+        ('F34 Env.reload: reloading thread parked at its first load_environ, the other instantiates',
+         Scn('regression F34', 'env', [], [[('env', False)], [('env', True)]], kind='env'),
+         [[1, 'env.load_environ', 1], [0, 'end'], [1, 'end']]),
+        ('F34 Env.reload: reloading thread parked at var_names, the other instantiates',
+         Scn('regression F34b', 'env', [], [[('env', False)], [('env', True)]], kind='env'),
+         [[1, 'env.var_names', 1], [0, 'end'], [1, 'end']]),
+    ]
 
 
 def run(ctx):
@@ -414,15 +406,18 @@ def run(ctx):
             hook_ok = False
             ctx.broken_tie('hook H2 lacks yield points the model treats as scheduling points', sorted(need - declared))
 
-    # which proposed repairs are present in the tree under test (the model has both variants of each)
+    # The model describes the tree WITH the repairs F30, F32, F33, F34; for the open F31 it has both
+    # variants and the harness detects from the source which one the tree under test has.
     fixes = probe.get('fixes') or {}
-    FIDS = ['F30', 'F31', 'F32', 'F33', 'F34']
-    unknown = [f for f in FIDS if fixes.get(f) is None]
-    if unknown:
-        ctx.broken_tie('the code at the call sites of %s has neither the pinned nor the repaired shape the model knows'
-                       % unknown, {'fixes': fixes, 'error': probe.get('fixes_error')})
-    fx = '(mkX %s)' % ' '.join(BOOL[bool(fixes.get(f))] for f in FIDS)
-    ctx.extra_cov['repairs_detected_in_tree'] = {f: fixes.get(f) for f in FIDS}
+    not_repaired = [f for f in ('F30', 'F32', 'F33', 'F34') if fixes.get(f) is not True]
+    if not_repaired:
+        ctx.broken_tie('the code at the call sites of %s does not have the (repaired) shape the model describes'
+                       % not_repaired, {'fixes': fixes, 'error': probe.get('fixes_error')})
+    if fixes.get('F31') is None:
+        ctx.broken_tie('the `set_paths` sites of class_helper.py have neither the pinned nor the repaired shape the model knows',
+                       {'fixes': fixes, 'error': probe.get('fixes_error')})
+    fx = '(mkX %s)' % BOOL[bool(fixes.get('F31'))]
+    ctx.extra_cov['code_shape_detected'] = fixes
 
     quick = ctx.tier == 'quick'
     bound = 2 if quick else 3
@@ -554,6 +549,16 @@ def run(ctx):
         ok = replay(ctx, w, quiet=True)
         ctx.count(1, key='witness:' + f['id'], nontrivial=True)
         ctx.known_finding(f['id'], still_fails=not ok)
+
+    # ---- regression schedules of the repaired defects ---------------------------------------------------
+    if hook_ok:
+        for what, sc, named in regressions():
+            obj = {'scenario': impl_scenario(sc), 'named': named, 'name': sc.name}
+            ok = replay(ctx, obj, quiet=True)
+            ctx.count(1, key='regression:' + sc.name, nontrivial=True)
+            ctx.hist('regression_schedules', 'sequential' if ok else 'NOT sequential')
+            if not ok:
+                ctx.violation('regression schedule (%s) gives an outcome of no sequential order' % what, obj)
 
     ctx.notes.append('phase witnesses done at %.1fs' % (_time.time() - ctx.t0))
     # ---- supplementary: real threads, tiny switch interval -------------------------------------------
